@@ -461,7 +461,7 @@ def check(prop, tier, replay=None):
     rows, st = judge("CliTrace", tcfg, runs, wd, "cli", weight=lambda x: len(x["lines"]) + 1, strip=lambda x: {k: v for k, v in x.items() if k != "info"})
     V.cov["states"] += st
     for run, row in zip(runs, rows):
-        if (row[2] in (2, 4)) if not fxmode else (row[2] != 1):
+        if (row[2] in (2, 4)) if not fxmode else (row[2] in (3, 4)):
             inf = run["info"]
             V.violation({"argv": inf["argv"], "kind": inf["kind"]},
                         (f"side effects {run['fx']} -- " if fxmode else "") + f"auditok {' '.join(inf['argv'])} ({inf['kind']} input {inf['fmt']}): exit={run['exit']} raised={inf['raised']} stdout={inf['stdout'][:160]!r} "
